@@ -174,4 +174,57 @@ theorem shake128_oneshot_eq (F : State → State) (fuel : Nat) (h : List UInt8) 
     refine ⟨_, rfl, ?_⟩
     rwa [show outlen / 168 * 168 = outlen by omega] at hqw
 
+/-! ### multi-call sessions through the generated wrappers
+The caller's call sequence is not part of fips202.c, so the runner is written here: it does nothing but chain the generated
+wrapper programs (the context lanes / byte counter left by one call are passed to the next, the output pointer advances by the
+request). `ab` / `sq` are instantiated with the generated `shake*_inc_absorb.run` / `shake*_inc_squeeze.run`. -/
+
+def runAbsorbs (ab : State → Nat → List UInt8 → Nat → Nat → Option AV) (i0 : Nat) : State → Nat → List (List UInt8) → Option (State × Nat)
+  | s, p, [] => some (s, p)
+  | s, p, m :: ms => (ab s p m m.length i0).bind fun v => runAbsorbs ab i0 v.s_inc v.pos ms
+
+def runSqueezes (sq : List UInt8 → Nat → Nat → State → Nat → Nat → Option IV) (i0 : Nat) :
+    List UInt8 → Nat → State → Nat → List Nat → Option (List UInt8 × State × Nat)
+  | h, _, s, p, [] => some (h, s, p)
+  | h, off, s, p, n :: ns => (sq h off n s p i0).bind fun v => runSqueezes sq i0 v.h (off + n) v.s_inc v.pos ns
+
+theorem sqBytes_length (F : State → State) (r n : Nat) (st : IncState) : (SqiProofs.Sponge.sqBytes F r n st).1.length = n := by
+  induction n generalizing st with
+  | zero => rfl
+  | succ n ih => simp [SqiProofs.Sponge.sqBytes, ih]
+
+theorem runAbsorbs_eq (F : State → State) (fuel r i0 : Nat) (chunks : List (List UInt8)) (st : IncState) (hp : st.pos < r)
+    (hf : ∀ m ∈ chunks, m.length + r < fuel) :
+    runAbsorbs (fun s p m l i => SqiGen.Sponge.keccak_inc_absorb.run F fuel ⟨s, p, r, m, l, i⟩) i0 st.s st.pos chunks
+      = some ((incAbsorbMany F r st chunks).s, (incAbsorbMany F r st chunks).pos) := by
+  induction chunks generalizing st with
+  | nil => rfl
+  | cons m ms ih =>
+    obtain ⟨v, h1, h2, h3⟩ := inc_absorb_eq F fuel r st m i0 hp (hf m (by simp))
+    have hp' : (incAbsorb F r st m).pos < r := by
+      rw [SqiProofs.Sponge.incAbsorb_eq F r st m hp]; exact SqiProofs.Sponge.abBytes_pos_lt F r st m hp
+    have := ih (incAbsorb F r st m) hp' (fun m' hm' => hf m' (by simp [hm']))
+    simp only [runAbsorbs, h1, Option.bind, h2, h3, this, incAbsorbMany, List.foldl_cons]
+
+theorem runSqueezes_eq (F : State → State) (fuel r i0 : Nat) (h0 : 0 < r) (reqs : List Nat) (st : IncState) (hp : st.pos < r)
+    (h : List UInt8) (off : Nat) (hl : off + reqs.sum ≤ h.length) (hf : ∀ n ∈ reqs, n + r < fuel) :
+    ∃ h', runSqueezes (fun h off n s p i => SqiGen.Sponge.keccak_inc_squeeze.run F fuel ⟨h, off, n, s, p, r, i⟩) i0 h off st.s st.pos reqs
+        = some (h', (incSqueezeMany F r st reqs).2.s, (incSqueezeMany F r st reqs).2.pos) ∧
+      Written h h' off reqs.sum (incSqueezeMany F r st reqs).1 := by
+  induction reqs generalizing st h off with
+  | nil => exact ⟨h, rfl, written_refl h off⟩
+  | cons n ns ih =>
+    simp only [List.sum_cons] at hl
+    obtain ⟨v, h1, h2, h3⟩ := inc_squeeze_eq F fuel r h0 st (by omega) h off n i0 (by omega) (hf n (by simp))
+    have e := SqiProofs.Sponge.incSqueeze_eq F r h0 st n hp
+    have hp' : (incSqueeze F r st n).2.pos < r := by rw [e]; exact SqiProofs.Sponge.sqBytes_pos_lt F r n st hp
+    have hlen : (incSqueeze F r st n).1.length = n := by rw [e]; exact sqBytes_length F r n st
+    have hs : v.s_inc = (incSqueeze F r st n).2.s := congrArg IncState.s h3
+    have hq : v.pos = (incSqueeze F r st n).2.pos := congrArg IncState.pos h3
+    obtain ⟨h', r1, r2⟩ := ih (incSqueeze F r st n).2 hp' v.h (off + n) (by rw [h2.1]; omega) (fun n' hn' => hf n' (by simp [hn']))
+    refine ⟨h', ?_, ?_⟩
+    · simp only [runSqueezes, h1, Option.bind, hs, hq, r1, incSqueezeMany]
+    · have := written_trans h v.h h' off n ns.sum _ _ h2 hlen r2
+      simpa only [List.sum_cons, incSqueezeMany] using this
+
 end SqiProofs.SpongeGen
